@@ -22,7 +22,11 @@ def run(ck):
              "nodes' set (as a peer would fetch it) and store are compared with the model; at quiescence the oracle checks on the "
              "implementation that every node serves exactly the last-writer-wins documents (ids, bytes, stamps) of the operations "
              "issued and that set = store. non-trivial = distinct schedules with a lost message, a failed consistency level, a "
-             "partial exchange or a restart, and a non-empty final result",
+             "partial exchange or a restart, and a non-empty final result. Component tsdiff (hx-tsdiff): the poller's real KeyspaceTracker - "
+             "every pair of (recorded, reported) stamp maps over four keyspaces x {absent, three stamps} (65 536, a third of them with other "
+             "peers' entries present), 20 000 / 200 000 random pairs over up to 12 keyspaces with stamps incl. 0 and u64::MAX, and 10 000 / "
+             "100 000 scripts of recordings, departures and plans over three peers; the listed keyspaces are compared with TsDiff.v / "
+             "PollerPlan.v and, by the oracle, with 'the two sides disagree about the keyspace'",
         assumptions=[
             "all operations of a run are issued within one forgiveness period (the property's premise) and after the first tick of "
             "the epoch (K1); stamps are drawn by the real node clocks and fed to the model",
